@@ -371,3 +371,6 @@ func IndentsByParsedLevel(a *levelAttr, sb *strings.Builder) {
 		sb.WriteString("  ")
 	}
 }
+
+// SizesByWidth violates R2.18: the width is whatever the file says.
+func SizesByWidth(pageWidth float64) []int { return make([]int, int(pageWidth/5)+1) }
